@@ -89,6 +89,8 @@ package solver
 
 //@ define cholds(c PBConstr, A asg) bool = isum(c.Lits, c.Weights, A, len(c.Lits)) >= c.AtLeast
 //@ define nzLits(l []int) bool = forall(k, 0, len(l), l[k] != 0)
+//@ define posW(w []int) bool = forall(k, 0, len(w), w[k] > 0)
+//@ define litRange(l []int) bool = forall(k, 0, len(l), -1073741824 <= l[k] && l[k] <= 1073741824)
 
 // GtEq: the returned constraint is equivalent to "sum of weights of true literals >= n" as the
 // caller wrote it (weights of either sign, zero weights), has positive weights and non-zero literals.
@@ -98,11 +100,14 @@ package solver
 //@   requires nz:   nzLits(lits)
 //@   requires sep:  weights != nil ==> arr(lits) != arr(weights)
 //@   modifies lits[*], weights[*]
-//@   ensures  shape: (old(weights == nil) ==> result.Weights == nil) && (old(weights != nil) ==> len(result.Lits) == len(result.Weights))
+//@   ensures  shape: (old(weights == nil) ==> result.Weights == nil) && (old(weights != nil) ==> len(result.Lits) == len(result.Weights) && result.Weights != nil)
 //@   ensures  pos:   forall(k, 0, len(result.Weights), result.Weights[k] > 0)
 //@   ensures  nz:    nzLits(result.Lits)
+//@   ensures  rng:   old(litRange(lits)) ==> litRange(result.Lits)
+//@   ensures  same:  sameArray(result.Lits, lits) && sameArray(result.Weights, weights)
 //@   ensures  equiv: (old(isum(lits, weights, A, len(lits))) >= n) <==> cholds(result, A)
 //@   loop 1
+//@     invariant rng:   old(litRange(lits)) ==> litRange(lits)
 //@     invariant nilcase: old(weights == nil) ==> weights == nil && lits == old(lits) && n == old(n) && forall(k, 0, len(lits), lits[k] == old(lits[k]))
 //@     invariant idx:   0 <= i && i <= len(weights) && (old(weights != nil) ==> len(lits) == len(weights) && weights != nil)
 //@     invariant same:  sameArray(lits, old(lits)) && sameArray(weights, old(weights)) && cap(lits) == old(cap(lits)) && cap(weights) == old(cap(weights))
@@ -119,9 +124,11 @@ package solver
 //@   requires nz:   nzLits(lits)
 //@   requires sep:  arr(lits) != arr(weights)
 //@   modifies lits[*], weights[*]
-//@   ensures  shape: len(result.Lits) == len(result.Weights)
+//@   ensures  shape: len(result.Lits) == len(result.Weights) && result.Weights != nil
 //@   ensures  pos:   forall(k, 0, len(result.Weights), result.Weights[k] > 0)
 //@   ensures  nz:    nzLits(result.Lits)
+//@   ensures  rng:   old(litRange(lits)) ==> litRange(result.Lits)
+//@   ensures  same:  sameArray(result.Lits, lits) && sameArray(result.Weights, weights)
 //@   ensures  equiv: (old(isum(lits, weights, A, len(lits))) <= n) <==> cholds(result, A)
 //@   loop 1
 //@     invariant idx:  0 <= rangei && rangei <= len(lits)
@@ -286,3 +293,78 @@ package solver
 //@     invariant shp:  pbd.weights != nil && len(pbd.weights) == len(lits) && fresh(pbd.weights)
 //@     invariant perm: psum(lits, nil, A, len(lits)) == old(psum(lits, weights, A, len(lits)))
 //@   assert exit ones: old(weights == nil) ==> lem_psum_ones(result.lits, result.pbData.weights, A, len(result.lits))
+
+
+//@ func (PBConstr).WeightSum
+//@   ensures sum: result == wsum(c.Weights, len(c.Lits)) || (c.Weights != nil && result == wsum(c.Weights, len(c.Weights)))
+//@   ensures nil: c.Weights == nil ==> result == len(c.Lits)
+//@   ensures val: c.Weights != nil ==> result == wsum(c.Weights, len(c.Weights))
+//@   loop 1
+//@     invariant idx: 0 <= rangei && rangei <= len(c.Weights) && c.Weights != nil
+//@     invariant sum: res == wsum(c.Weights, rangei)
+
+// parseTerms: the token-level reader of "w x1 w ~x2 ..." is trusted for the text-to-number
+// part (strconv); what is used here: as many weights as literals, literals are variables
+// 1..NbVars with a sign, fresh result slices.
+//@ func (*Problem).parseTerms
+//@   trusted
+//@   modifies pb.NbVars
+//@   ensures shape: result2 == nil ==> result0 != nil && len(result0) == len(result1) && fresh(result0) && fresh(result1) && arr(result0) != arr(result1)
+//@   ensures lits:  result2 == nil ==> forall(k, 0, len(result1), result1[k] != 0 && absi(result1[k]) <= pb.NbVars) && pb.NbVars >= old(pb.NbVars)
+//@   ensures rng:   result2 == nil ==> litRange(result1)
+
+// pmodels: assignment A satisfies everything the problem currently holds
+//@ define pmodels(pb *Problem, A asg) bool = forall(i, 0, len(pb.Clauses), holds(pb.Clauses[i], A)) && forall(i, 0, len(pb.Units), tv(A, pb.Units[i]))
+
+//@ define cshape(c PBConstr) bool = posW(c.Weights) && nzLits(c.Lits) && litRange(c.Lits) && c.Weights != nil && len(c.Lits) == len(c.Weights)
+
+// parsePBConstrLine: every constraint produced by GtEq / Eq from the parsed terms is stored
+// equivalently: either as the unit literals it forces (assert units) or as a PB clause with the
+// same meaning (assert clause), or the problem is declared Unsat only if the constraint cannot be
+// satisfied (assert unsat). No panic for any right-hand side.
+//@ func (*Problem).parsePBConstrLine
+//@   ghost A asg
+//@   requires nn: pb != nil && pb.NbVars >= 0 && pb.NbVars <= 1073741824
+//@   modifies pb.NbVars, pb.Status, pb.Units, pb.Clauses, pb.Units[*], pb.Clauses[*]
+//@   assume-input after-call (PBConstr).WeightSum#1 small: result <= 1073741824
+//@   assert after-call (PBConstr).WeightSum#1 unsat: result < constr.AtLeast ==> !cholds(constr, A)
+//@   assert after-call (PBConstr).WeightSum#1 le: lem_isum_le(constr.Lits, constr.Weights, A, len(constr.Lits))
+//@   assert after-call NewPBClause#1 clause: holds(result, A) <==> prev(cholds(constr, A))
+//@   assert before-call NewPBClause#1 conv: lem_isum_psum(lits, constr.Lits, constr.Weights, A, len(lits))
+//@   loop 1
+//@     invariant idx:   0 <= rangei && rangei <= len(constrs)
+//@     invariant own:   grown(pb.Units) && grown(pb.Clauses)
+//@     invariant shape: forall(k, rangei, len(constrs), cshape(constrs[k]) && fresh(constrs[k].Weights))
+//@     invariant dist:  forall(k, rangei, len(constrs), forall(m, rangei, len(constrs), k != m ==> arr(constrs[k].Weights) != arr(constrs[m].Weights)))
+//@   loop 2
+//@     invariant idx:   0 <= rangei && rangei <= len(constr.Lits)
+//@     invariant own:   grown(pb.Units) && grown(pb.Clauses)
+//@     invariant n:     len(pb.Units) == entry2(len(pb.Units)) + rangei
+//@     invariant units: forall(k, 0, rangei, pb.Units[entry2(len(pb.Units)) + k] == ilit(constr.Lits[k]))
+//@   loop 3
+//@     invariant idx:   0 <= rangei && rangei <= len(constr.Lits) && len(lits) == len(constr.Lits) && fresh(lits)
+//@     invariant conv:  forall(k, 0, rangei, lits[k] == ilit(constr.Lits[k]))
+
+// Eq: the returned constraints together mean "sum of weights of true literals == n".
+//@ func Eq
+//@   ghost A asg
+//@   requires lens: weights != nil && len(lits) == len(weights)
+//@   requires nz:   nzLits(lits)
+//@   requires sep:  arr(lits) != arr(weights)
+//@   modifies lits[*], weights[*]
+//@   ensures  shape: forall(k, 0, len(result), result[k].Weights != nil && len(result[k].Lits) == len(result[k].Weights) && result[k].AtLeast > 0 && posW(result[k].Weights) && nzLits(result[k].Lits))
+//@   ensures  rng:   old(litRange(lits)) ==> forall(k, 0, len(result), litRange(result[k].Lits))
+//@   ensures  equiv: (old(isum(lits, weights, A, len(lits))) == n) <==> forall(k, 0, len(result), cholds(result[k], A))
+//@   ensures  len:   len(result) <= 2
+//@   ensures  dist:  forall(k, 0, len(result), forall(m, 0, len(result), k != m ==> arr(result[k].Weights) != arr(result[m].Weights)))
+//@   ensures  own:   forall(k, 0, len(result), fresh(result[k].Weights) || arr(result[k].Weights) == arr(weights))
+//@   assert before-call GtEq#1 copied: forall(k, 0, len(lits), lits2[k] == lits[k] && weights2[k] == weights[k]) && len(lits2) == len(lits) && len(weights2) == len(weights)
+//@   assert before-call GtEq#1 copySum: isum(lits2, weights2, A, len(lits2)) == isum(lits, weights, A, len(lits))
+//@   assert after-call LtEq#1 nonneg: lem_isum_nonneg(ge.Lits, ge.Weights, A, len(ge.Lits)) && lem_isum_nonneg(result.Lits, result.Weights, A, len(result.Lits))
+//@   assert after-call GtEq#1 ge0: (old(isum(lits, weights, A, len(lits))) >= n) <==> cholds(result, A)
+//@   assert after-call LtEq#1 gekeep1: posW(ge.Weights)
+//@   assert after-call LtEq#1 gekeep2: nzLits(ge.Lits)
+//@   assert after-call LtEq#1 gekeep3: old(litRange(lits)) ==> litRange(ge.Lits)
+//@   assert after-call LtEq#1 gekeep4: (old(isum(lits, weights, A, len(lits))) >= n) <==> cholds(ge, A)
+//@   assert exit elems: forall(k, 0, len(result), result[k] == ge || result[k] == le)
+//@   assert exit both: (ge.AtLeast > 0 ==> len(result) >= 1 && result[0] == ge) && (le.AtLeast > 0 ==> len(result) >= 1 && result[len(result)-1] == le)
